@@ -354,7 +354,9 @@ impl FromMeta for syn::Path {
     fn from_expr(expr: &Expr) -> Result<Self> {
         match expr {
             Expr::Lit(lit) => Self::from_value(&lit.lit),
-            Expr::Path(path) => Ok(path.path.clone()),
+            // A qualified path such as `<T as Trait>::Assoc` is not a `syn::Path`;
+            // taking only its `path` would silently drop the `<T as ..>` part.
+            Expr::Path(path) if path.qself.is_none() => Ok(path.path.clone()),
             Expr::Group(group) => Self::from_expr(&group.expr), // see FromMeta::from_expr
             _ => Err(Error::unexpected_expr_type(expr)),
         }
